@@ -43,6 +43,7 @@ type World struct {
 	T0           time.Time
 	Seen         []Seg // every segment emitted (for oracles)
 	LastRTO      int
+	rtoUsed      int
 	lastReadData bool
 }
 
@@ -122,7 +123,7 @@ func decode(f netsim.Frame, t0 time.Time) (Seg, bool) {
 		return Seg{}, false
 	}
 	s := Seg{SPort: binary.BigEndian.Uint16(t[0:]), DPort: binary.BigEndian.Uint16(t[2:]), Seq: binary.BigEndian.Uint32(t[4:]),
-		Ack: binary.BigEndian.Uint32(t[8:]), Flags: t[13], Wnd: binary.BigEndian.Uint16(t[14:]), Opts: t[20:doff], Data: t[doff:], At: time.Since(t0)}
+		Ack: binary.BigEndian.Uint32(t[8:]), Flags: t[13], Wnd: binary.BigEndian.Uint16(t[14:]), Opts: t[20:doff], Data: t[doff:], At: f.At.Sub(t0)}
 	// checksum over pseudo header + segment
 	ps := netsim.Sum16(b[12:20], 0) + 6 + uint32(len(t))
 	s.CkOK = netsim.Fold(netsim.Sum16(t, ps)) == 0xffff
@@ -133,7 +134,7 @@ func decode(f netsim.Frame, t0 time.Time) (Seg, bool) {
 // a goroutine that was just started by `go` and has not reached its first blocking point yet is
 // still counted as busy, which the sleeper registry alone cannot see.
 func allIdle() bool {
-	buf := make([]byte, 1<<18)
+	buf := make([]byte, 1<<20)
 	n := runtime.Stack(buf, true)
 	first := true
 	for _, line := range strings.Split(string(buf[:n]), "\n") {
@@ -307,8 +308,16 @@ func (w *World) Seg(sport, dport uint16, flags uint8, seq, ack uint32, wnd uint1
 }
 
 // RTO waits for the retransmission timer of endpoint i to fire (up to maxMs) and reports what it sent.
-// LastRTO holds the elapsed time in milliseconds (for the timing oracle).
+// For the timing clauses the op line carries, as learned values, the time in milliseconds between the
+// first segment emitted now and the previous emission of the same sequence number (dt), and the time
+// the harness waited (waited).
 func (w *World) RTO(i int, maxMs int) {
+	// the timeout doubles on every expiry (1 s, 2 s, 4 s ... without a round-trip sample): only the first
+	// two expiries of a history fit into the wait
+	if w.rtoUsed >= 2 {
+		return
+	}
+	w.rtoUsed++
 	start := time.Now()
 	var out []Seg
 	for time.Since(start) < time.Duration(maxMs)*time.Millisecond {
@@ -319,9 +328,19 @@ func (w *World) RTO(i int, maxMs int) {
 		}
 	}
 	w.LastRTO = int(time.Since(start) / time.Millisecond)
+	before := len(w.Seen)
 	out = w.Collect()
+	dt := -1
+	if len(out) > 0 {
+		for k := before - 1; k >= 0; k-- {
+			if p := w.Seen[k]; p.Seq == out[0].Seq && (len(p.Data) > 0 || p.Flags&3 != 0) {
+				dt = int((out[0].At - p.At) / time.Millisecond)
+				break
+			}
+		}
+	}
 	w.R.Count("rto")
-	w.R.Emit(fmt.Sprintf("rto %d", i), segs(out))
+	w.R.Emit(fmt.Sprintf("rto %d dt=%d waited=%d", i, dt, w.LastRTO), segs(out))
 }
 
 func (w *World) CookieMode(on bool) {
@@ -409,4 +428,16 @@ func (w *World) Wait(ms int) {
 
 func (w *World) State(i int) string {
 	return fmt.Sprint(tcp.VerifState(w.Eps[i]))
+}
+
+// Shut closes every endpoint of the world (not an op: the history is over).
+func (w *World) Shut() {
+	for _, ep := range w.Eps {
+		ep.Close()
+	}
+	if w.Lis != nil {
+		w.Lis.Close()
+	}
+	Quiesce()
+	w.L.Take()
 }
